@@ -654,7 +654,7 @@ struct MemEngine : Engine {
                 if (tier == "thorough") {
                     // thorough: watch windows on EVERY (op, form, n) at the mid-page placement, the neighbour writer at every instruction
                     // index of EVERY partial store in all four counted forms, and every distance d to the page boundary via 'near' placements
-                    for (unsigned op = 0; op < 2; ++op) for (unsigned form = 0; form < 4; ++form) for (unsigned n = 0; n <= W; ++n) {
+                    if (prop != "C08") for (unsigned op = 0; op < 2; ++op) for (unsigned form = 0; form < 4; ++form) for (unsigned n = 0; n <= W; ++n) {
                         sweep.push_back({ti, (unsigned char)op, (unsigned char)form, (unsigned char)n, (unsigned char)((form & 1) ? 5 : 3), 0, 1});
                         // single-stepping costs ~35 us per instruction here: for wide types the exhaustive-k sweep takes a spread of n only
                         bool pick = W <= 16 || n <= 3 || n >= W - 2 || n % (W / 8) <= 1;
@@ -663,6 +663,8 @@ struct MemEngine : Engine {
                     for (unsigned op = 0; op < 2; ++op) for (unsigned n = 1; n <= W; ++n) for (unsigned d = 1; d <= W && d <= 16; ++d) sweep.push_back({ti, (unsigned char)op, 0, (unsigned char)n, (unsigned char)(6 + (d - 1)), 0, 0});
                 }
                 // neighbour writer at EVERY instruction index of a partial store, and watch windows on partial load/store
+                // (footprint oracles: C09 only - the C08 check spends its budget on values, forms and placements)
+                if (prop == "C08") continue;
                 if (W > 1) { unsigned ns[3] = {1, W / 2, W - 1};
                     for (unsigned k = 0; k < 3; ++k) { sweep.push_back({ti, 1, 0, (unsigned char)ns[k], 3, 0, 2}); sweep.push_back({ti, 1, 1, (unsigned char)ns[k], 5, 0, 2});
                         sweep.push_back({ti, 0, 0, (unsigned char)ns[k], 3, 0, 1}); sweep.push_back({ti, 1, 0, (unsigned char)ns[k], 3, 0, 1}); } }
@@ -779,6 +781,7 @@ struct MemEngine : Engine {
         for (std::size_t i = 0; i < types.size(); ++i) if ((tm >> (i % 64)) & 1) pool.push_back(types[i]);
         unsigned fmask = (unsigned)r.below(8);        // bit0 watch, bit1 neigh (only when bit2 also set: single-stepping costs ~35us/instruction in this VM)
         if (!(fmask & 4)) fmask &= ~2u;
+        if (prop == "C08") fmask &= ~3u;     // watch windows and the neighbour writer serve C09
         bool focus_val = prop == "C08";
         unsigned nsteps = (unsigned)r.range(4, 24);
         for (unsigned k = 0; k < nsteps; ++k) {
